@@ -74,11 +74,12 @@ def s_dtls_magic(vc):
 
 
 def hdr_ok(vc, data, off, dtls):
+    """The record header at `off` (whole header available) is accepted.  The record readers are specified relative to the
+    header predicates starts_like_tls_record / starts_like_dtls_record, which have their own contracts against the RFCs
+    above (incl. KF-C13-1 for the DTLS 1.0 record version)."""
     if dtls:
-        # which DTLS record versions are accepted is the contract of starts_like_dtls_record (above, with KF-C13-1): the
-        # record reader is specified relative to that predicate (evaluated on the 13 header bytes)
-        return vc.call(N + ":starts_like_dtls_record", data[off:off + 13]).result
-    return And(code_at(data, off) == 22, code_at(data, off + 1) == 3, code_at(data, off + 2) <= 3)
+        return vc.call(N + ":starts_like_dtls_record", sub(data, off, 13)).result
+    return vc.call(N + ":starts_like_tls_record", sub(data, off, 5)).result
 
 
 def sub(data, a, n):
@@ -94,7 +95,7 @@ def be24(b, i):
     return code_at(b, i) * 65536 + code_at(b, i + 1) * 256 + code_at(b, i + 2)
 
 
-def reference_hello(vc, data, dtls, max_records=3):
+def reference_hello(vc, data, dtls, max_records=2):
     """Reference reader. Returns ('incomplete',) | ('invalid',) | ('hello', pieces, need) | ('beyond',) following the
     contract's own branches (vc.branch) on the symbolic input; pieces = [(payload offset in data, payload size)] of the
     records read, need = length of the handshake message incl. its header (the hello is the first `need` bytes of the
@@ -176,7 +177,7 @@ for _dtls in (False, True):
         check_against_reference(vc, out, ref, data)
 
     scenario(("dtls." if _dtls else "tls.") + "get_client_hello.reference", functions=[_fn, _gen, N + (":starts_like_dtls_record" if _dtls else ":starts_like_tls_record")],
-             lazy_generators=True, pc_slices=True, inbounds_lengths=True, max_unroll=3)(_s_get)
+             lazy_generators=True, pc_slices=True, inbounds_lengths=True, max_unroll=2)(_s_get)
 
     def _s_prefix(vc, _dtls=_dtls, _fn=_fn):
         """(P) a complete hello is not changed by any bytes that follow (later records, the next segment)."""
@@ -194,24 +195,21 @@ for _dtls in (False, True):
         if not isnone(o2.result):
             vc.ensure("P.same_hello", o2.result == o1.result)
 
-    scenario(("dtls." if _dtls else "tls.") + "get_client_hello.stable_under_extension", functions=[_fn, _gen], lazy_generators=True, pc_slices=True, inbounds_lengths=True, max_unroll=3)(_s_prefix)
+    scenario(("dtls." if _dtls else "tls.") + "get_client_hello.stable_under_extension", functions=[_fn, _gen], lazy_generators=True, pc_slices=True, inbounds_lengths=True, max_unroll=2)(_s_prefix)
 
     def _s_trunc(vc, _dtls=_dtls, _fn=_fn):
-        """(M) every prefix of a stream with a complete hello is either incomplete or already gives the same hello — never an error."""
+        """(M) a stream that is rejected stays rejected whatever follows; contrapositive: no prefix of a stream with a complete
+        hello is ever rejected, i.e. every prefix is incomplete or (by (P)) already gives the same hello."""
         d = vc.sym_bytes("d")
         s = vc.sym_bytes("s")
-        o2 = vc.call(_fn, d + s)
-        vc.assume(o2.ok)
-        if isnone(o2.result):
-            return
         o1 = vc.call(_fn, d)
-        vc.ensure("M.prefix_never_invalid", o1.ok)
-        if not o1.ok:
+        if o1.ok:
             return
-        if not isnone(o1.result):
-            vc.ensure("M.prefix_same_hello", o1.result == o2.result)
+        vc.ensure("M.only_ValueError", is_value_error(o1))
+        o2 = vc.call(_fn, d + s)
+        vc.ensure("M.rejected_stays_rejected", is_value_error(o2))
 
-    scenario(("dtls." if _dtls else "tls.") + "get_client_hello.prefix_never_invalid", functions=[_fn, _gen], lazy_generators=True, pc_slices=True, inbounds_lengths=True, max_unroll=3)(_s_trunc)
+    scenario(("dtls." if _dtls else "tls.") + "get_client_hello.rejection_stable_under_extension", functions=[_fn, _gen], lazy_generators=True, pc_slices=True, inbounds_lengths=True, max_unroll=2)(_s_trunc)
 
 
 # ---------------------------------------------------------------------------------------------
@@ -288,6 +286,12 @@ def complete(c, dtls):
     return And(len_(c) >= 4, len_(c) >= be24(c, 1) + 4)
 
 
+def header_predicate_uf(vc, d):
+    import z3
+    from pyvc import lib
+    return SBool(lib.uf("record_header_accepted", z3.StringSort(), z3.BoolSort())(d.t))
+
+
 def mk_machine_scenario(dtls):
     fn = L + (":get_dtls_client_hello" if dtls else ":get_client_hello")
     gen = L + (":dtls_handshake_record_contents" if dtls else ":handshake_record_contents")
@@ -332,6 +336,8 @@ def mk_machine_scenario(dtls):
 
         inv.havoc = havoc
         vc.invariant(gen, 1, inv)
+        # the header predicate has its own contract (above): here it is an uninterpreted predicate of the header bytes
+        vc.summary(N + (":starts_like_dtls_record" if dtls else ":starts_like_tls_record"), header_predicate_uf)
         out = vc.call(fn, data)
         o0, c0 = st["o0"], st["c0"]
         if o0 is None:
@@ -355,6 +361,169 @@ def mk_machine_scenario(dtls):
 
 mk_machine_scenario(False)
 mk_machine_scenario(True)
+
+
+# ---------------------------------------------------------------------------------------------
+# parse_client_hello / dtls_parse_client_hello and the buffering in ClientTLSLayer.receive_handshake_data
+
+
+def _cls(ref):
+    from pyvc.vc import resolve_ref
+    return resolve_ref(ref)[2]
+
+
+def kaitai_contract(vc, CH, made):
+    """Trusted contract of the kaitai-generated parser behind mitmproxy.tls.ClientHello(raw, dtls): it returns an object or
+    raises EOFError -- nothing else (checked bounded in T2)."""
+    def ctor(v, raw, dtls=False):
+        made.append((raw, dtls))
+        if v.branch(v.fresh_bool("kaitai_eof")):
+            v.raise_(EOFError, "requested bytes not available")
+        o = v.new(CH, _raw_bytes=raw, _client_hello=v.new("props.C13:NoExtensions"))
+        made[-1] = (raw, dtls, o)
+        return o
+    return ctor
+
+
+class NoExtensions:
+    """a parsed hello without an `extensions` attribute (ClientHello.sni -> None, alpn_protocols -> [])"""
+
+
+def raw_matches(vc, raw, data, pieces, need, skip, tag):
+    """raw == (first `need` bytes of the concatenated pieces)[skip:]"""
+    if vc.mode == "native":
+        vc.ensure(tag + "exactly_the_hello_body", bytes(raw) == native_concat(data, pieces)[skip:need])
+        return
+    vc.ensure(tag + "body_length", len_(raw) == need - skip)
+    i = vc.ex.fresh("int", "idx")
+    vc.ensure(tag + "exactly_the_hello_body", Implies(And(i >= 0, i < need - skip), code_at(raw, i) == acc_at(data, pieces, i + skip)))
+
+
+for _dtls in (False, True):
+    _fn = L + (":dtls_parse_client_hello" if _dtls else ":parse_client_hello")
+
+    def _s_parse(vc, _dtls=_dtls, _fn=_fn):
+        CH = _cls("mitmproxy.tls:ClientHello")
+        made = []
+        vc.summary("mitmproxy.tls:ClientHello", kaitai_contract(vc, CH, made))
+        data = vc.sym_bytes("data")
+        out = vc.call(_fn, data)
+        ref = reference_hello(vc, data, _dtls, max_records=1)
+        if ref[0] == "beyond":
+            return
+        vc.ensure("total.raises_only_ValueError", out.ok or is_value_error(out))
+        if ref[0] == "incomplete":
+            vc.ensure("incomplete.returns_None_without_parsing", out.ok and isnone(out.result) and len(made) == 0)
+        elif ref[0] == "invalid":
+            vc.ensure("invalid_record.raises_ValueError_without_parsing", is_value_error(out) and len(made) == 0)
+        else:
+            vc.ensure("complete.parsed_once", len(made) == 1)
+            if len(made) != 1:
+                return
+            raw_matches(vc, made[0][0], data, ref[1], ref[2], 12 if _dtls else 4, "complete.")
+            vc.ensure("complete.dtls_flag", vc.eq(made[0][1], _dtls))
+            if len(made[0]) == 2:
+                vc.ensure("complete.parser_EOF_becomes_ValueError", is_value_error(out))
+            else:
+                vc.ensure("complete.returns_the_parsed_hello", out.ok and out.result is made[0][2])
+
+    scenario(("dtls." if _dtls else "tls.") + "parse_client_hello", functions=[_fn], lazy_generators=True, pc_slices=True, inbounds_lengths=True, max_unroll=1)(_s_parse)
+
+
+CT = L + ":ClientTLSLayer"
+
+
+def mk_client_tls_layer(vc, buf, dtls):
+    from mitmproxy.proxy.tunnel import TunnelState
+    client = mk_client(vc, transport_protocol="udp" if dtls else "tcp")
+    server = mk_server(vc, address=("example.com", 443))
+    ctx = mk_context(vc, client, server, mk_options(vc))
+    layer = vc.new(CT, context=ctx, conn=client, tunnel_connection=client, child_layer=None, recv_buffer=buf, client_hello_parsed=False,
+                   server_tls_available=False, tunnel_state=TunnelState.ESTABLISHING, command_to_reply_to=None, _event_queue=vc.list([]),
+                   debug=None, _paused=None, _paused_event_queue=None, tls=None)
+    return layer, client, server, ctx
+
+
+def _mk_recv(dtls):
+    def s_recv(vc):
+        """One DataReceived segment while waiting for the ClientHello: recv_buffer (incomplete so far) ++ data decides."""
+        from mitmproxy.connection import ConnectionState
+        from props.tlsstub import mk_ssl
+        CH = _cls("mitmproxy.tls:ClientHello")
+        made = []
+        vc.summary("mitmproxy.tls:ClientHello", kaitai_contract(vc, CH, made))
+        buf = vc.sym_bytes("recv_buffer")
+        data = vc.sym_bytes("data")
+        provide_tls = vc.case("addon_provides_ssl_conn", [False, True])
+        layer, client, server, ctx = mk_client_tls_layer(vc, buf, dtls)
+        server_hello = vc.sym_bytes("server_hello")
+        vc.assume(len_(server_hello) > 0)
+        ssl = mk_ssl(vc, outbox=[server_hello])
+        hooks = []
+
+        def on_yield(cmd):
+            if is_cmd(cmd, "TlsClienthelloHook"):
+                hooks.append(cmd)
+            elif is_cmd(cmd, "TlsStartClientHook"):
+                hooks.append(cmd)
+                if provide_tls:
+                    cmd.data.ssl_conn = ssl
+            elif is_cmd(cmd, "CloseConnection"):
+                cmd.connection.state = ConnectionState.CLOSED  # what the proxy server does with the command
+
+        out = vc.call(CT + ".receive_handshake_data", layer, data, on_yield=on_yield)
+        vc.ensure("total.no_exception", out.ok)
+        if not out.ok:
+            return
+        whole = buf + data
+        ref = reference_hello(vc, whole, dtls, max_records=1)
+        if ref[0] == "beyond":
+            return
+        r = out.result
+        kinds = trace_kinds(out.trace)
+        if ref[0] == "incomplete":
+            # (N) silent, buffer accumulates in order, still waiting
+            vc.ensure("incomplete.result_not_done_no_error", And(vc.eq(r[0], False), isnone(r[1])))
+            vc.ensure("incomplete.no_commands_no_hook", kinds == [] and len(made) == 0)
+            vc.ensure("incomplete.buffer_accumulates_in_order", layer.recv_buffer == whole)
+            vc.ensure("incomplete.still_waiting", vc.eq(layer.client_hello_parsed, False))
+            vc.ensure("incomplete.sni_untouched", isnone(client.sni))
+            return
+        if ref[0] == "invalid" or len(made[0]) == 2:
+            vc.ensure("invalid.reported_as_error", And(vc.eq(r[0], False), Not(isnone(r[1]))))
+            if not isnone(r[1]):
+                vc.ensure("invalid.error_text", startswith(r[1], "Cannot parse ClientHello"))
+            vc.ensure("invalid.no_commands_no_hook", kinds == [])
+            vc.ensure("invalid.not_parsed", vc.eq(layer.client_hello_parsed, False))
+            return
+        hello = made[0][2]
+        vc.ensure("complete.parsed_flag", vc.eq(layer.client_hello_parsed, True))
+        vc.ensure("complete.clienthello_hook_first", kinds[:1] == ["TlsClienthelloHook"])
+        if kinds[:1] != ["TlsClienthelloHook"]:
+            return
+        vc.ensure("complete.hook_carries_parsed_hello_and_context", out.trace[0].data.client_hello is hello and out.trace[0].data.context is ctx)
+        vc.ensure("complete.sni_and_alpn_from_hello", And(isnone(client.sni), len_(client.alpn_offers) == 0))
+        if not provide_tls:
+            vc.ensure("notls.trace", kinds == ["TlsClienthelloHook", "TlsStartClientHook", "Log", "CloseConnection"])
+            vc.ensure("notls.error", And(vc.eq(r[0], False), vc.eq(r[1], "connection closed early")))
+        else:
+            # everything buffered so far (the hello and whatever followed it in these segments) goes to OpenSSL exactly once, in order
+            vc.ensure("tls.bio_write_once", len(ssl.inbox) == 1)
+            if len(ssl.inbox) == 1:
+                vc.ensure("tls.bio_write_whole_buffer_in_order", ssl.inbox[0] == whole)
+            vc.ensure("tls.buffer_cleared", len_(layer.recv_buffer) == 0)
+            vc.ensure("tls.trace", kinds == ["TlsClienthelloHook", "TlsStartClientHook", "SendData"])
+            if kinds == ["TlsClienthelloHook", "TlsStartClientHook", "SendData"]:
+                vc.ensure("tls.server_flight_sent_to_client", And(out.trace[2].data == server_hello, out.trace[2].connection is client))
+            vc.ensure("tls.handshake_continues", And(vc.eq(r[0], False), isnone(r[1])))
+            vc.ensure("tls.connection_is_the_provided_one", layer.tls is ssl)
+
+    return scenario(("dtls." if dtls else "tls.") + "ClientTLSLayer.receive_handshake_data", functions=[CT + ".receive_handshake_data", L + ":TLSLayer.receive_handshake_data", L + ":TLSLayer.start_tls", L + ":TLSLayer.tls_interact"],
+                    lazy_generators=True, pc_slices=True, inbounds_lengths=True, max_unroll=1)(s_recv)
+
+
+_mk_recv(False)
+_mk_recv(True)
 
 
 def bounded(tier, seed):
